@@ -52,6 +52,7 @@ structure RowOk (S : TinyRV0.State) (w : Nat) : Prop where
   mem_type : (U.cs w).dmemreq_type = nr ∨ (U.cs w).dmemreq_type = ld ∨ (U.cs w).dmemreq_type = st
   nomem_sel : (U.cs w).dmemreq_type = nr → (U.cs w).wb_result_sel = 0
   p2m_nowen : U.p2m w = true → (U.cs w).rf_wen_pending = false
+  p2m_nomem : U.p2m w = true → (U.cs w).dmemreq_type = nr
   br_en : (U.cs w).br_type = true → (U.cs w).rs1_en = true ∧ (U.cs w).rs2_en = true ∧ (U.cs w).op2_sel = 0 ∧
             (U.cs w).rf_wen_pending = false ∧ (U.cs w).dmemreq_type = nr ∧ U.p2m w = false ∧ (U.cs w).imm_type = 2
   /-- whenever the ALU result is used, the ALU function only reads operands whose register read is enabled -/
@@ -135,5 +136,128 @@ theorem row_csrw (h1 : w % 128 = 0x73) (h3 : w / 2^12 % 8 = 1) :
   have : w ≠ 19 := by omega
   simp [U.cs, decodeInstType, opcode, funct3, this, h1, h3, csTable, CSRW, CSRR, CSRRX, NOP]
 end rows
+
+/-! ### every row the ISA can reach satisfies `RowOk`; `exec` is `U.next` -/
+
+theorem rowOk_of (S : TinyRV0.State) (w : Nat) (c : CS) (hrow : U.cs w = c)
+  (h1 : c.csrr = (c.csrr && (csrnum w == CSR_MNGR2PROC)))
+  (h2 : c.csrw = (c.csrw && (csrnum w == CSR_PROC2MNGR)))
+  (h3 : (c.csrr && (csrnum w == CSR_MNGR2PROC)) = true → S.inp ≠ [])
+  (hc : c ∈ [ (⟨y, br_na, n, imm_x, bm_x, n, alu_x, nr, wm_a, n, n, n⟩ : CS),
+              ⟨y, br_na, n, imm_i, bm_csr, n, alu_cp1, nr, wm_a, y, y, n⟩,
+              ⟨y, br_na, y, imm_i, bm_imm, n, alu_cp0, nr, wm_a, n, n, y⟩,
+              ⟨y, br_na, y, imm_x, bm_rf, y, alu_add, nr, wm_a, y, n, n⟩,
+              ⟨y, br_na, y, imm_x, bm_rf, y, alu_sll, nr, wm_a, y, n, n⟩,
+              ⟨y, br_na, y, imm_x, bm_rf, y, alu_srl, nr, wm_a, y, n, n⟩,
+              ⟨y, br_na, y, imm_i, bm_imm, n, alu_add, nr, wm_a, y, n, n⟩,
+              ⟨y, br_na, y, imm_i, bm_imm, n, alu_add, ld, wm_m, y, n, n⟩,
+              ⟨y, br_na, y, imm_s, bm_imm, y, alu_add, st, wm_m, n, n, n⟩,
+              ⟨y, br_ne, y, imm_b, bm_rf, y, alu_x, nr, wm_x, n, n, n⟩,
+              ⟨y, br_na, y, imm_x, bm_rf, y, alu_and, nr, wm_a, y, n, n⟩ ]) : RowOk S w := by
+  simp only [List.mem_cons, List.not_mem_nil, or_false] at hc
+  rcases hc with hc | hc | hc | hc | hc | hc | hc | hc | hc | hc | hc <;> subst hc <;>
+  constructor <;>
+  simp_all [U.m2p, U.p2m, y, n, br_na, br_ne, imm_x, imm_i, imm_s, imm_b, bm_x, bm_rf, bm_imm, bm_csr,
+    alu_x, alu_cp0, alu_cp1, alu_add, alu_sll, alu_srl, alu_and, nr, ld, st, wm_a, wm_m, wm_x, alu]
+
+local macro "usimp" h:ident : tactic => `(tactic|
+  simp [U.next, U.taken, U.wb, U.aluv, U.op1, U.op2, U.rs2v, U.imm, U.m2p, U.p2m, $h:ident, y, n, br_na, br_ne, imm_x, imm_i, imm_s,
+    imm_b, bm_x, bm_rf, bm_imm, bm_csr, alu_x, alu_cp0, alu_cp1, alu_add, alu_sll, alu_srl, alu_and, nr, ld, st, wm_a,
+    wm_m, wm_x, alu, immgen_I, immgen_S, immgen_B, rs1, rs2, rd, csrnum, fields])
+
+theorem exec_uniform (S S' : TinyRV0.State) (w : Nat) (ins : Inst)
+    (hd : decode w = some ins) (he : exec S ins = .ok S') : S' = U.next S w ∧ RowOk S w := by
+  unfold decode at hd
+  split at hd
+  · unfold decodeF at hd
+    have e1 : (fields w).opc = w % 128 := rfl
+    have e2 : (fields w).f3 = w / 2^12 % 8 := rfl
+    have e3 : (fields w).f7 = w / 2^25 % 128 := rfl
+    rw [e1, e2, e3] at hd
+    repeat' split at hd
+    all_goals try (simp at hd; done)
+    all_goals (injection hd with hd; subst hd)
+    · -- add
+      have hrow := row_add w ‹_› ‹_›
+      refine ⟨?_, rowOk_of S w _ hrow (by simp [n]) (by simp [n]) (by simp [n]) (by simp)⟩
+      simp only [exec] at he; cases he
+      usimp hrow
+    · -- sll
+      have hrow := row_sll w ‹_› ‹_›
+      refine ⟨?_, rowOk_of S w _ hrow (by simp [n]) (by simp [n]) (by simp [n]) (by simp)⟩
+      simp only [exec] at he; cases he
+      usimp hrow
+    · -- srl
+      have hrow := row_srl w ‹_› ‹_›
+      refine ⟨?_, rowOk_of S w _ hrow (by simp [n]) (by simp [n]) (by simp [n]) (by simp)⟩
+      simp only [exec] at he; cases he
+      usimp hrow
+    · -- and
+      have hrow := row_and w ‹_› ‹_›
+      refine ⟨?_, rowOk_of S w _ hrow (by simp [n]) (by simp [n]) (by simp [n]) (by simp)⟩
+      simp only [exec] at he; cases he
+      usimp hrow
+    · -- addi (and the canonical nop)
+      by_cases h19 : w = 19
+      · have hrow := row_nop w h19
+        refine ⟨?_, rowOk_of S w _ hrow (by simp [n]) (by simp [n]) (by simp [n]) (by simp)⟩
+        simp only [exec] at he; cases he
+        subst h19
+        usimp hrow
+        simp [rset]
+      · have hrow := row_addi w h19 ‹_› ‹_›
+        refine ⟨?_, rowOk_of S w _ hrow (by simp [n]) (by simp [n]) (by simp [n]) (by simp)⟩
+        simp only [exec] at he; cases he
+        usimp hrow
+    · -- lw
+      have hrow := row_lw w ‹_› ‹_›
+      refine ⟨?_, rowOk_of S w _ hrow (by simp [n]) (by simp [n]) (by simp [n]) (by simp)⟩
+      simp only [exec] at he
+      split at he
+      · cases he; usimp hrow
+      · cases he
+    · -- sw
+      have hrow := row_sw w ‹_› ‹_›
+      refine ⟨?_, rowOk_of S w _ hrow (by simp [n]) (by simp [n]) (by simp [n]) (by simp)⟩
+      simp only [exec] at he
+      split at he
+      · cases he; usimp hrow
+      · cases he
+    · -- bne
+      have hrow := row_bne w ‹_› ‹_›
+      refine ⟨?_, rowOk_of S w _ hrow (by simp [n]) (by simp [n]) (by simp [n]) (by simp)⟩
+      simp only [exec] at he
+      split at he
+      · rename_i hne; cases he; usimp hrow
+        simp [fields] at hne; intro h'; exact absurd h' hne
+      · rename_i hne; cases he; usimp hrow
+        simp [fields] at hne; intro h'; exact absurd hne h'
+    · -- csrr
+      rename_i h7 h3 hrs1
+      simp only [exec] at he
+      split at he
+      · rename_i hcsr
+        have hc : w / 2^20 % 4096 = 4032 := hcsr
+        have hrow := row_csrr w h7 h3 (by omega)
+        split at he
+        · cases he
+        · rename_i v rest hinp; cases he
+          refine ⟨?_, rowOk_of S w _ hrow (by simp [y, csrnum, CSR_MNGR2PROC, hc]) (by simp [n]) (by simp [hinp]) (by simp)⟩
+          usimp hrow
+          simp [hc, hinp, CSR_MNGR2PROC]
+      · cases he
+    · -- csrw
+      rename_i h7 _ h3 hrd
+      simp only [exec] at he
+      split at he
+      · rename_i hcsr
+        have hc : w / 2^20 % 4096 = 1984 := hcsr
+        have hrow := row_csrw w h7 h3
+        cases he
+        refine ⟨?_, rowOk_of S w _ hrow (by simp [n]) (by simp [y, csrnum, CSR_PROC2MNGR, hc]) (by simp [n]) (by simp)⟩
+        usimp hrow
+        simp [hc, CSR_PROC2MNGR]
+      · cases he
+  · simp at hd
 
 end PV.Pipe
